@@ -351,5 +351,8 @@ pub fn run(tier: &str, seed: u64, dir: &str) {
     // (0.95047, 1, 1.08883) differs from it by 2.3e-4 in Z, which is 3.7e-5 in Oklab b (C14_White.oklab_white decides |M1·w − 1| <= 1.5e-4, and
     // cbrt divides that by 3).  "Oklab (1, 0, 0) for D65" is therefore checked to 1e-4, the accuracy of the white point digits themselves.
     out.check((w[0] - 1.0).abs() <= 1e-4 && w[1].abs() <= 1e-4 && w[2].abs() <= 1e-4, "oklab-white:f64", || format!("D65 -> Oklab {:?}", w));
+    // coverage audit (AUDIT_C14.md): deprecated adaptation API, DCI / dynamic white points, every white point under Lab / Luv in both directions, further
+    // standards, integer components, the Matrix3 API, Oklab per standard, CAM16 J of the adopted white: `c14_more.rs`.  Called last: the case stream above is unchanged.
+    crate::c14_more::run_more(&mut out, &mut rng, tier);
     out.finish(dir, "");
 }
